@@ -163,28 +163,33 @@ def prove(pid, extra_targets=()):
 
 # ---------------------------------------------------------------- building the two executable sides
 
-def build_model():
-    """Extracts the Coq model to OCaml and builds the model driver; cached on the hash of its inputs."""
-    out_dir = os.path.join(BUILD, "ocaml")
+def build_model(unit="model"):
+    """Extracts the Coq model to OCaml and builds a model driver; cached on the hash of its inputs.
+    unit="model": coq/Extract/Extract.v -> model.ml + ocaml/driver.ml -> modeldrv (the main unit).
+    unit="xyz":   coq/Extract/Extract_xyz.v (must `Extraction "xyz_model.ml" ...`) + ocaml/xyz_driver.ml -> xyzdrv."""
+    out_dir = os.path.join(BUILD, "ocaml" if unit == "model" else "ocaml_" + unit)
     os.makedirs(out_dir, exist_ok=True)
-    exe = os.path.join(out_dir, "modeldrv")
-    with Lock("ocaml"):
+    if unit == "model":
+        ext_v, ml, drv, exe_name = "Extract/Extract.v", "model", "driver.ml", "modeldrv"
+    else:
+        ext_v, ml, drv, exe_name = "Extract/Extract_%s.v" % unit, unit + "_model", unit + "_driver.ml", unit + "drv"
+    exe = os.path.join(out_dir, exe_name)
+    with Lock("ocaml-" + unit):
         # the extraction needs the model .vo files
-        res, log = coq_make(["Extract/Extract.vo"])
+        res, log = coq_make([ext_v + "o"])
         srcs = [p for p in glob.glob(os.path.join(COQ, "**", "*.v"), recursive=True) if "/scratch/" not in p and "/Props/" not in p and "/Proofs/" not in p and not p.endswith("Proofs.v")]
-        srcs += glob.glob(os.path.join(VERIF, "ocaml", "*.ml"))
+        srcs += [os.path.join(VERIF, "ocaml", drv)]
         h = file_hash(srcs)
         stamp = os.path.join(out_dir, "stamp")
         if os.path.exists(exe) and os.path.exists(stamp) and open(stamp).read() == h:
             return exe, None
-        if not res.get("Extract/Extract.vo"):
+        if not res.get(ext_v + "o"):
             return None, "extraction failed:\n" + log[-3000:]
-        rc, out = sh("coqc -Q %s Lug %s/Extract/Extract.v" % (COQ, COQ), cwd=out_dir, timeout=600)
+        rc, out = sh("coqc -Q %s Lug %s/%s" % (COQ, COQ, ext_v), cwd=out_dir, timeout=600)
         if rc != 0:
             return None, "extraction failed:\n" + out[-3000:]
-        for f in glob.glob(os.path.join(VERIF, "ocaml", "*.ml")):
-            shutil.copy(f, out_dir)
-        rc, out = sh("ocamlfind ocamlopt -unsafe -inline 100 -w -a model.mli model.ml driver.ml -o modeldrv", cwd=out_dir, timeout=600)
+        shutil.copy(os.path.join(VERIF, "ocaml", drv), os.path.join(out_dir, drv))
+        rc, out = sh("ocamlfind ocamlopt -unsafe -inline 100 -w -a %s.mli %s.ml %s -o %s" % (ml, ml, drv, exe_name), cwd=out_dir, timeout=600)
         if rc != 0 or not os.path.exists(exe):
             return None, "ocaml build failed:\n" + out[-3000:]
         with open(stamp, "w") as f:
